@@ -104,7 +104,7 @@ namespace BitSerializer::Convert::Detail
 			// Check that string does not contain decimal fractions (parsing a float number to integer is not allowed)
 			if constexpr (std::is_integral_v<T>)
 			{
-				if (rc.ptr + 1 < str.data() + str.size() && *rc.ptr == '.' && std::isdigit(*(rc.ptr + 1)))
+				if (str.data() + str.size() - rc.ptr > 1 && *rc.ptr == '.' && std::isdigit(static_cast<unsigned char>(*(rc.ptr + 1))))
 				{
 					throw std::invalid_argument("Unable to convert string with float number to integer");
 				}
